@@ -1,0 +1,57 @@
+//go:build verif
+// +build verif
+
+// Verification hook (C16): read-only exports of the unexported VRF building
+// blocks so that an external harness can (a) compare each step with its formal
+// model and (b) act as an adversarial prover. Add-only; compiled only with
+// -tags verif.
+package ed25519
+
+import "com.tuntun.rangers/node/src/common/ed25519/edwards25519"
+
+func VerifC16HashToCurve(m []byte, pk PublicKey) [32]byte { return hashToCurve(m, pk) }
+
+func VerifC16ExpandSecret(sk PrivateKey) (x [32]byte, trunc [32]byte) {
+	a, b := expandSecret(sk)
+	return *a, *b
+}
+
+func VerifC16Nonce(trunc [32]byte, h [32]byte) [32]byte { return *vrfNonceGeneration(trunc, h) }
+
+// VerifC16HashPoints hashes four encoded points exactly like hashPoints does
+// (each is decoded with FromBytes first, result flag ignored as in the callers).
+func VerifC16HashPoints(b1, b2, b3, b4 [32]byte) [16]byte {
+	var p1, p2, p3, p4 edwards25519.ExtendedGroupElement
+	p1.FromBytes(&b1)
+	p2.FromBytes(&b2)
+	p3.FromBytes(&b3)
+	p4.FromBytes(&b4)
+	return hashPoints(p1, p2, p3, p4)
+}
+
+func VerifC16IsCanonical(s [32]byte) byte { return isCanonical(s) }
+
+func VerifC16StringToPoint(s [32]byte) (ok bool, reenc [32]byte) {
+	p := new(edwards25519.ExtendedGroupElement)
+	ok = stringToPoint(p, s)
+	p.ToBytes(&reenc)
+	return
+}
+
+func VerifC16TryZeroPadding(pi []byte) []byte { return tryZeroPadding(VRFProve(pi)) }
+
+func VerifC16FromUniform(r [32]byte) [32]byte { return fromUniform(r) }
+
+// VerifC16DecodeProof returns the three slices decodeProof cuts out (after the
+// caller-side padding ECVRFVerify applies) and whether gamma decoded.
+func VerifC16DecodeProof(pi []byte) (ok bool, gamma [32]byte, c [16]byte, s [32]byte) {
+	pi = tryZeroPadding(pi)
+	g, cc, ss, err := decodeProof(pi)
+	if err != nil {
+		return false, gamma, c, s
+	}
+	g.ToBytes(&gamma)
+	copy(c[:], cc[:16])
+	copy(s[:], ss[:32])
+	return true, gamma, c, s
+}
